@@ -225,6 +225,119 @@ def case_mu2(log):
     log.path_stats(pm)
 
 
+class _OmeKB:
+    def __init__(self, singlet):
+        self.is_singlet, self.is_QEDsinglet, self.is_QEDvalence, self.n = singlet, False, False, SR.var("N")
+
+    def integrand(self, areas):
+        return 1
+
+
+def case_ome(log, sector, morder, nf, backward):
+    """quad_ker_ome in the exponentiated scheme: the matching built from the shifted coefficients at the coupling of the shifted
+    scale (nf+1 flavours, as OperatorMatrixElement.a_s asks it) equals the unvaried matching at the unshifted coupling through the
+    matching order.  OME coefficients symbolic, nf concrete (the flavour number of the beta function is the point)."""
+    qk = sym_module("eko.evolution_operator.quad_ker")
+    xp = sym_module("eko.scale_variations.exponentiated")
+    import eko.scale_variations as svmod
+    from eko import beta as B
+
+    log.encode(qk.quad_ker_ome, qk.build_ome, xp.gamma_variation)
+    singlet = sector == "singlet"
+    rp = (MOD, "replay_ome", {"sector": sector, "morder": morder, "nf": nf, "backward": backward})
+    key = "ome.exponentiated.%s:%d" % (sector, morder)
+    log.register_replay(key, rp, _sampler)
+    bm = {None: None, "exact": qk.MatchingMethods.BACKWARD_EXACT, "expanded": qk.MatchingMethods.BACKWARD_EXPANDED}[backward]
+
+    def run():
+        jetmod.set_cap(morder + 1)
+        _a0c, a1c, _al0, _al1 = jet_couplings(seed=False)
+        L = SR.var("L")
+        # running of the coupling the matching is expanded in: nf + 1 flavours
+        proxy = ExactBetaProxy(B)
+        bet = [proxy.beta_qcd((2 + k, 0), nf + 1) for k in range(morder)]
+        a_shift = rg_shift(a1c, bet)
+        d = 3 if singlet else 2
+        A = realnp.empty((3, d, d), dtype=object)
+        for k in range(3):
+            for i in range(d):
+                for j in range(d):
+                    A[k, i, j] = SR.var("A%d_%d%d" % (k + 1, i, j))
+        saved = (qk.QuadKerBase, qk.ome_us.A_singlet, qk.ome_us.A_non_singlet, xp.beta)
+        xp.beta = proxy
+        qk.QuadKerBase = lambda u, is_log, logx, mode0: _OmeKB(singlet)
+        qk.ome_us.A_singlet = lambda *a, **k: A.copy()
+        qk.ome_us.A_non_singlet = lambda *a, **k: A.copy()
+        modes = (21, 100, 90) if singlet else (200, 91)
+        try:
+            for m0 in modes:
+                for m1 in modes:
+                    args = (0.5, (morder, 0), m0, m1, True, SR.var("logx"), ("areas",))
+                    Kv = qk.quad_ker_ome(*args, a_shift, nf, SR.var("Lh"), svmod.Modes.exponentiated, L, bm, False, False, False)
+                    Kc = qk.quad_ker_ome(*args, a1c, nf, SR.var("Lh"), svmod.Modes.unvaried, L, bm, False, False, False)
+                    for k, c in residual_coeffs(as_jet(Kv) - as_jet(Kc), morder + 1):
+                        v = prove_zero(c, "matching (%s, order %d, nf %d, %s) [%d,%d]: lam^%d coefficient of exponentiated - unvaried" % (sector, morder, nf, backward or "forward", m0, m1, k), timeout_ms=60000)
+                        if not log.decide(v, key=key, replay=rp, sampler=_sampler):
+                            return
+        finally:
+            qk.QuadKerBase, qk.ome_us.A_singlet, qk.ome_us.A_non_singlet, xp.beta = saved
+        log.twin("domain")
+        log.collect_ctx()
+
+    _r, pm = explore(run)
+    log.path_stats(pm)
+
+
+def replay_ome(point, sector, morder, nf, backward):
+    """real quad_ker_ome (QuadKerBase and the OME replaced by fixed numbers): exponentiated at a' = a^(nf+1)(xif2 mu_h^2) vs unvaried
+    at a^(nf+1)(mu_h^2), the two couplings related by numerical integration of the (nf+1)-flavour RGE; the difference must scale
+    like a^(morder+1)."""
+    import math
+    import importlib
+    import numpy as np
+    from unittest import mock
+    import eko.scale_variations as svmod
+
+    qk = importlib.import_module("eko.evolution_operator.quad_ker")
+    L = float(point.get("L", 0.7))
+    if abs(L) < 0.2:
+        L = 0.7
+    singlet = sector == "singlet"
+    d = 3 if singlet else 2
+    rng = np.random.default_rng(7)
+    A = rng.normal(size=(3, d, d)) * np.array([3.0, 10.0, 30.0])[:, None, None]
+    bm = {None: None, "exact": qk.MatchingMethods.BACKWARD_EXACT, "expanded": qk.MatchingMethods.BACKWARD_EXPANDED}[backward]
+    shift = _coupling(nf + 1, morder + 1)
+
+    class KB:
+        def __init__(self, *a):
+            self.is_singlet, self.is_QEDsinglet, self.n = singlet, False, 2.0 + 0.5j
+
+        def integrand(self, areas):
+            return 1.0
+
+    m0, m1 = ((100, 21) if singlet else (200, 200))
+    worst = None
+    with mock.patch.object(qk, "QuadKerBase", KB), mock.patch.object(qk.ome_us, "A_singlet", lambda *a, **k: A.copy()), \
+            mock.patch.object(qk.ome_us, "A_non_singlet", lambda *a, **k: A.copy()):
+        for mm0 in ((21, 100, 90) if singlet else (200, 91)):
+            for mm1 in ((21, 100, 90) if singlet else (200, 91)):
+                diffs = []
+                for a in (2e-3, 1e-3, 5e-4):
+                    ap = shift(a, L)
+                    kv = qk.quad_ker_ome(0.5, (morder, 0), mm0, mm1, True, -1.0, None, ap, nf, 0.0, svmod.Modes.exponentiated, L, bm, False, False, False)
+                    kc = qk.quad_ker_ome(0.5, (morder, 0), mm0, mm1, True, -1.0, None, a, nf, 0.0, svmod.Modes.unvaried, L, bm, False, False, False)
+                    diffs.append(abs(kv - kc))
+                if diffs[2] < 1e-15 or diffs[1] < 1e-15:
+                    continue
+                expo = math.log(diffs[1] / diffs[2]) / math.log(2.0)
+                if expo < morder + 0.5 and (worst is None or expo < worst[0]):
+                    worst = (expo, mm0, mm1, diffs)
+    if worst:
+        return {"detail": "quad_ker_ome (%s, matching order %d, nf %d, %s, L=%.3g) element (%d,%d): exponentiated - unvaried = %r at a = 2e-3, 1e-3, 5e-4: local exponent %.2f, must be >= %d" % (sector, morder, nf, backward or "forward", L, worst[1], worst[2], worst[3], worst[0], morder + 1)}
+    return None
+
+
 # ---------------------------------------------------------------------------
 def _sampler(rng):
     p = {"alpha0": rnd(rng, 0.01, 0.04), "alpha1": rnd(rng, 0.01, 0.04), "a0": rnd(rng, 0.01, 0.04), "a1": rnd(rng, 0.01, 0.04), "L": rnd(rng, -1.3, 1.3)}
@@ -355,6 +468,11 @@ def main():
                  "running coupling -> series solution of the truncated RGE over ln xi^2 (harness oracle)"]
     chk.out_of_claim = ["x-space operators and interpolation", "threshold crossing", "QED x QCD scale variations", "measured scaling exponents of full solves"]
     chk.case("mu2", case_mu2)
+    for sector in ("ns", "singlet"):
+        for mo in (1, 2, 3):
+            for nf in ((3, 4, 5) if thorough else (4,)):
+                for bw in ((None, "exact", "expanded") if (thorough or sector == "ns") else (None,)):
+                    chk.case("ome.%s.o%d.nf%d.%s" % (sector, mo, nf, bw or "forward"), case_ome, sector=sector, morder=mo, nf=nf, backward=bw)
     from . import opwire
 
     opwire.add_cases(chk, "C51", thorough)
